@@ -425,6 +425,25 @@ class C11(Prop):
             for (v, p) in ((0, bytes(20)), (1, bytes(2)), (16, bytes(40))):
                 if mine():
                     yield mk('c11.encode', cps(h), v, p.hex(), tag='encode-badhrp', ood=True)
+        # prefix RELATIONS (round 9, C11r9): a valid address of prefix H is asked for under every expected prefix that
+        # is a proper prefix / extension of H or agrees with H up to a '1' inside H (the separator is the LAST '1',
+        # so "bc1x" + '1' + data is a valid string of prefix "bc1x" that begins with "bc1") — all must be refused
+        for base in CHAIN_HRPS + ('x', 'a1', self._rand_hrp(rng, 3)):
+            for extra in ('', 'x', 'q', '1', '11', 'qq1', rng.choice(CHARSET) + rng.choice(CHARSET)):
+                for (v, p) in ((0, bytes(range(20))), (0, rng.randbytes(32)), (1, rng.randbytes(32)), (16, rng.randbytes(2))):
+                    if not mine():
+                        continue
+                    h = base + '1' + extra
+                    a = h_address(h, v, list(p), const=1)
+                    expects = {base, h, h[:-1], h + '1', base + '1', base[:1], base + extra, h.upper()}
+                    expects |= {h[:k] for k in range(1, len(h))}
+                    for e in sorted(x for x in expects if x):
+                        for form in (a, a.upper()):
+                            yield mk('c11.decode', cps(e), cps(form), tag='hrp-relation')
+                    if base in CHAIN_HRPS:
+                        for ch in CHAINS:
+                            for form in (a, a.upper()):
+                                yield mk('c11.new', ch, cps(form), tag='hrp-relation-new')
         # malformed strings straight into the decoders
         for _ in range(per_shard(6000 if big else 800)):
             ln = rng.choice([0, 1, 6, 7, 8, 20, 89, 90, 91, 92] + [p for p in pool if p <= 100])
